@@ -33,7 +33,9 @@ def split_events(ctx):
     pool = {'Apub': bytes(ka.pubkey), 'Asec': bytes(ka), 'Bpub': bytes(kb.pubkey), 'Bsec': bytes(kb), 'Cpub': bytes(kc.pubkey), 'Csec': bytes(kc),
             'Fpub': fpub, 'Ftrust': ftrust, 'Fsec': fsec}
     combos = [['Apub'], ['Apub', 'Bpub'], ['Bpub', 'Apub'], ['Apub', 'Bpub', 'Cpub'], ['Asec', 'Bsec'], ['Bsec', 'Asec', 'Csec'], ['Apub', 'Asec'], ['Asec', 'Apub'],
-              ['Apub', 'Bpub', 'Asec', 'Bsec'], ['Bsec', 'Apub', 'Bpub'], ['Fpub', 'Apub'], ['Ftrust', 'Bpub'], ['Bpub', 'Ftrust', 'Cpub'], ['Fsec', 'Fpub'], ['Cpub', 'Fpub', 'Bpub', 'Apub']]
+              ['Apub', 'Bpub', 'Asec', 'Bsec'], ['Bsec', 'Apub', 'Bpub'], ['Fpub', 'Apub'], ['Ftrust', 'Bpub'], ['Bpub', 'Ftrust', 'Cpub'], ['Fsec', 'Fpub'], ['Cpub', 'Fpub', 'Bpub', 'Apub'],
+              # the same key again later in the blob (same half, other half), with another key in between
+              ['Apub', 'Bpub', 'Asec'], ['Asec', 'Bpub', 'Apub'], ['Apub', 'Bpub', 'Apub'], ['Bpub', 'Apub', 'Cpub', 'Asec'], ['Csec', 'Apub', 'Cpub']]
     for names in combos:
         for armor in (False, True):
             blob = b''.join(pool[n] for n in names)
